@@ -619,6 +619,10 @@ impl Checker
         for (id, sys, st) in open
         {
             self.viol_sys("C02", sys, format!("delivery {id} to system {:?} is still {:?} when the tree's flush returned", sys, st));
+            if sys.map(|s| self.alive(s)).unwrap_or(false)
+            {
+                if let Some(d) = self.deliveries.get(&id).cloned() { self.lost_reaction(&d, "never ran in its tree"); }
+            }
             if let Some(d) = self.deliveries.get_mut(&id) { d.status = DStatus::Discarded; }
         }
         let tree = self.tree;
@@ -1077,7 +1081,11 @@ impl Checker
                 }
                 else
                 {
-                    if status != DStatus::Applied { self.viol_sys("C02", sys, format!("delivery {id} entered the runner twice ({:?})", status)); }
+                    if status != DStatus::Applied
+                    {
+                        self.viol_sys("C02", sys, format!("delivery {id} entered the runner twice ({:?})", status));
+                        if let Some(d) = self.deliveries.get(&id).cloned() { self.lost_reaction(&d, "entered the runner a second time"); }
+                    }
                     if self.last_apply != Some(id) { self.internal(format!("runner entered for {id}, last applied {:?}", self.last_apply)); }
                 }
                 self.deliveries.get_mut(&id).unwrap().status = DStatus::Entered;
@@ -1092,6 +1100,7 @@ impl Checker
                 if target_alive
                 {
                     self.viol_sys("C02", d.sys, format!("delivery {id} to live system {:?} was aborted ({:?})", d.sys, reason));
+                    self.lost_reaction(&d, "was aborted");
                     // C09: a command whose target is executing is postponed and runs after that execution - never dropped
                     if d.sys.map(|s| !self.systems[s as usize].open_runs.is_empty()).unwrap_or(false)
                     {
@@ -1222,6 +1231,7 @@ impl Checker
                 if target_alive
                 {
                     self.viol_sys("C02", d.sys, format!("delivery {id} to live system {:?} was discarded at the end of the tree", d.sys));
+                    self.lost_reaction(&d, "was discarded at the end of the tree");
                     if d.status == DStatus::Postponed
                     {
                         self.viol_sys("C09", d.sys, format!("delivery {id}, postponed because system {:?} was executing, was discarded instead of running when that execution completed", d.sys));
@@ -1297,6 +1307,20 @@ impl Checker
             Hook::PollBegin => self.on_poll_begin(),
             Hook::PollEnd => self.on_poll_end(),
         }
+    }
+
+    /// A reaction that was scheduled for a live registration but does not end in exactly one run also breaks the
+    /// dispatch property it belongs to: C01 ("exactly one run per live matching registration") for event / insertion /
+    /// mutation / resource reactions, C08 for polled removal / despawn reactions.
+    fn lost_reaction(&mut self, d: &Delivery, what: &str)
+    {
+        let prop = match d.kind
+        {
+            HookKind::Broadcast | HookKind::EntityEvent | HookKind::Insertion(_) | HookKind::Mutation(_) | HookKind::Resource => "C01",
+            HookKind::Removal(_) | HookKind::Despawn => "C08",
+            _ => return,
+        };
+        self.viol_sys(prop, d.sys, format!("reaction {} ({:?}) for live reactor {:?} {what}: a matching live registration did not get its one run", d.id, d.kind, d.sys));
     }
 
     fn finish_delivery(&mut self, id: u64, status: DStatus)
